@@ -194,6 +194,13 @@ def run(e: Engine, rep: Report):
              'leaves the duration None: no timeout at all)')
     t6(e, rep)
     pool.request_typestate(e, rep, 'T3', only_exc=(TIMEOUT,))
+    rep.rule('T7', 'the handlers that settle a request after a failed step '
+             'do not need the connection: on no path from the start of '
+             '_run to an `assert self.client ...` inside an except arm is '
+             'self.client still unset while the request is unsettled (a '
+             'connect that timed out would end in AssertionError, and the '
+             'attempt would wait for ever)')
+    t7(e, rep)
 
 
 def t4(e: Engine, rep: Report):
@@ -470,3 +477,100 @@ def t6(e: Engine, rep: Report):
     if n < 2:
         rep.error('anchor vanished: timeout arguments forwarded to base '
                   'constructors (%d < 2)' % n)
+
+
+# ---------------------------------------------------------------------- T7
+def t7(e: Engine, rep: Report):
+    from ..facts import path_of
+    n_cls = 0
+    for c in e.concrete_classes(pool.POOL_CLIENT):
+        if c == pool.POOL_CLIENT:
+            continue
+        ctx = e.method_ctx(c, '_run')
+        k = e.p.classes[c]
+        # does the class keep its connection in an attribute that starts
+        # out as None?
+        init = e.p.lookup_method(c, '__init__')
+        attrs = set()
+        if init is not None:
+            for a in walk_own(init.node):
+                if isinstance(a, ast.Assign) and \
+                        isinstance(a.value, ast.Constant) and \
+                        a.value.value is None:
+                    for t in a.targets:
+                        if isinstance(t, ast.Attribute) and \
+                                isinstance(t.value, ast.Name) and \
+                                t.value.id == 'self':
+                            attrs.add('self.' + t.attr)
+        where = '%s[%s]' % (ctx.func.qname, c.rpartition('.')[2])
+        g = e.build(ctx, inline=e.inline_same_self(deny=['poll']),
+                    raises=pool.make_raises(e), max_depth=8,
+                    assert_raises=True)
+        rep.functions.add(ctx.func.qname)
+        asserts = [n for n in g.of_kind('stmt')
+                   if isinstance(n.ast, ast.Assert) and any(
+                       sc.kind == 'handler' for sc in n.scopes)]
+        n_cls += 1
+        if not asserts:
+            rep.evaluations += 1
+            rep.ok('T7', where, 'no assert inside an except arm',
+                   reason='handlers do not assert', nontrivial=False,
+                   loc=ctx.func.loc())
+            continue
+        for a in asserts:
+            rep.evaluations += 1
+            paths = {path_of(x, a.frame) for x in ast.walk(a.ast.test)
+                     if isinstance(x, ast.Attribute)} & attrs
+            if not paths:
+                rep.ok('T7', where, '`%s` in an except arm' % ' '.join(
+                    ast.unparse(a.ast).split())[:50], loc=a.loc(),
+                    reason='not about state that starts out as None',
+                    nontrivial=False)
+                continue
+            pth = sorted(paths)[0]
+
+            def step(n, label, st, pth=pth):
+                unset, settled = st
+                if isinstance(label, tuple):
+                    # this rule is about steps that time out (and asserts
+                    # that fail): an arbitrary exception of an unresolved
+                    # call is not followed
+                    if label[1] == ANY:
+                        return None
+                    return st
+                if n.kind == 'stmt' and isinstance(n.ast, ast.Assign):
+                    for t in n.ast.targets:
+                        if path_of(t, n.frame) == pth:
+                            unset = isinstance(n.ast.value, ast.Constant) \
+                                and n.ast.value.value is None
+                if n.kind == 'test' and label in ('T', 'F'):
+                    t = n.ast
+                    if path_of(t, n.frame) == pth:
+                        if label == 'T' and unset:
+                            return None
+                        if label == 'F' and not unset:
+                            return None
+                if n.kind == 'call' and \
+                        isinstance(n.ast.func, ast.Attribute) and \
+                        n.ast.func.attr in ('set', 'set_exception',
+                                            'appendleft'):
+                    settled = True
+                return (unset, settled)
+            w = dataflow.typestate_witness(
+                g, (True, False), step,
+                lambda n, st, a=a: n is a and st[0] and not st[1])
+            rep.check(w is None, 'T7', where,
+                      '`%s` in an except arm' % ' '.join(
+                          ast.unparse(a.ast).split())[:50],
+                      'an except arm of _run runs `%s` before the request '
+                      'is settled, and is reached while %s is still None '
+                      '(the step that failed was the one that sets it): the '
+                      'AssertionError leaves the arm, nobody settles the '
+                      'request, and Relay.attempt() waits for ever - the '
+                      'timeout did not end the attempt' % (
+                          ' '.join(ast.unparse(a.ast).split())[:50], pth),
+                      loc=a.loc(), reason='the attribute is set, or the '
+                      'request settled, on every path here',
+                      witness=dataflow.render_path(w, 14) if w else None)
+    if n_cls < 3:
+        rep.error('anchor vanished: pool clients (%d < 3)' % n_cls)
